@@ -28,7 +28,7 @@ ASSUMPTIONS = ['token strings are finite lists of terminal numbers; the lexer is
                'LA = canonical-LR(1)-merge (the LALR(1) reading of the look-ahead sets) rests on the correspondence + '
                'search oracle, not on a theorem; completeness for conflict-free tables IS a theorem (C02_complete)']
 
-IMPORTS = 'From LV Require Import Cfg.Grammar LR.Driver LR.Automaton LR.AutomatonCheck LR.DriverCheck.'
+IMPORTS = 'From LV Require Import Cfg.Grammar LR.Driver LR.Automaton LR.AutomatonCheck LR.DriverCheck LR.Lr1Merge.'
 
 END = '$END'
 
@@ -836,6 +836,7 @@ def correspond(ctx):
     rng = ctx.rng
     n_gram = int(os.environ.get('C02_N', 0)) or ctx.scale(200, 2400) * (3 if ctx.widen else 1)
     acases, ameta = [], []
+    lcases, lmeta = [], []
     dcases, dmeta = [], []
     for gi in range(-len(FIXED), n_gram):
         if gi < 0:
@@ -889,6 +890,11 @@ def correspond(ctx):
         ac['table'] = []
         if tab is not None:
             ac['table'] = tab['rows']
+        if reduced and len(d['roots']) == 1:
+            # Coq-side oracle: model look-aheads == canonical-LR(1)-merge (LR/Lr1Merge.v), by vm_compute
+            lcases.append('(%s,%d,%d)' % (c_rules(d), d['roots'][0], 400))
+            lmeta.append(dict(grammar=text, starts=g['starts']))
+            ctx.count('coq-lr1-merge', key=text, nontrivial=(nstates >= 4 and proper))
         acases.append(c_acase(ac))
         ameta.append(dict(grammar=text, starts=g['starts'], cyc=cyc, viol=bool(viol), error=d['error']))
         # --- model vs code: the driver, and membership ---
@@ -973,6 +979,18 @@ def correspond(ctx):
                 no_longer_checks='model/implementation agreement (stages %s of AutomatonCheck.stages)' % stages,
                 grammar=m['grammar'], starts=m['starts'], kind='analysis'), False,
                 'model and LALR_Analyzer disagree at stages %s; the LR(1)-merge/membership oracles hold here' % stages)
+
+    # --- Coq: the model's look-ahead sets vs the executable canonical-LR(1)-merge specification ---
+    bad, errs = ctx.coq_bad_indices('c02l', IMPORTS, 'check_lr1', lcases, chunk=max(8, len(lcases) // 6 + 1))
+    for e in errs:
+        ctx.violation('correspondence:coq-eval', {'error': e[-600:], 'no_longer_checks': 'coq evaluation of LR(1)-merge cases'},
+                      False, e[-300:])
+    for i in bad:
+        m = lmeta[i]
+        ctx.violation('correspondence:LR/Automaton look-aheads vs LR/Lr1Merge', dict(
+            no_longer_checks='model LA = canonical-LR(1)-merge look-aheads (check_lr1)', grammar=m['grammar'],
+            starts=m['starts'], kind='analysis'), False,
+            'the model of lalr_analysis.py and the Coq canonical-LR(1)-merge specification disagree on a reduced grammar')
 
     # --- Coq: model driver on lark's own table vs feed_token, plus the table certificate ---
     bad, errs = ctx.coq_bad_indices('c02d', IMPORTS, 'check_dcase', dcases, chunk=max(8, len(dcases) // 6 + 1))
